@@ -12,7 +12,8 @@ THEOREMS = ["PotasscoVerif.C12.C12_heap", "PotasscoVerif.C12.C12_redefinition", 
             "PotasscoVerif.C12.C12_term_remove", "PotasscoVerif.C12.step_acc",
             "PotasscoVerif.C12.C12_elem_add", "PotasscoVerif.C12.C12_elem_redefinition", "PotasscoVerif.C12.C12_elem_new_iff", "PotasscoVerif.C12.C12_set_condition",
             "PotasscoVerif.C12.C12_set_condition_refused", "PotasscoVerif.C12.C12_atom_add", "PotasscoVerif.C12.C12_filter", "PotasscoVerif.C12.C12_update",
-            "PotasscoVerif.C12.C12_tables_independent", "PotasscoVerif.C12.C12_visit_sound"]
+            "PotasscoVerif.C12.C12_tables_independent", "PotasscoVerif.C12.C12_visit_sound",
+            "PotasscoVerif.C12.C12_visit_complete", "PotasscoVerif.C12.C12_visit_only_referenced"]
 PARTIAL = {"print() / visit order": "that print() re-emits each stored term/atom as the directive it was added with, and the ORDER in which a visitor is shown the items, are decided by "
            "correspondence (model == code on both visit sequences) and the harness's print check; the SET of items shown is proved (C12_visit_sound/_complete/_only_referenced)",
            "real memory": "C12_heap is about the model's block account; freed-memory access and leaks of the real class are observed by ASan/LSan on the generated histories"}
